@@ -3,11 +3,13 @@ package c18
 import (
 	"fmt"
 	"math/rand"
+	"net"
 	"sync"
 	"time"
 
 	dtlsserver "github.com/plgd-dev/go-coap/v3/dtls/server"
 	"github.com/plgd-dev/go-coap/v3/options"
+	"github.com/plgd-dev/go-coap/v3/pkg/connections"
 	tcpclient "github.com/plgd-dev/go-coap/v3/tcp/client"
 	tcpserver "github.com/plgd-dev/go-coap/v3/tcp/server"
 	udpclient "github.com/plgd-dev/go-coap/v3/udp/client"
@@ -123,3 +125,78 @@ func groups(rec *vr.Rec, n int, seed int64) {
 }
 
 var _ = vr.Seed
+
+// registry: the tick of a stream / dtls server reaches its peers through pkg/connections. One tick after a full silent
+// period must reach EVERY registered live connection - also when some other connection in the registry is already
+// finished but not yet removed (its on-close callbacks are still running). Inactivity: every live one is closed by that
+// tick; keep-alive: every live one has sent its first ping.
+func registry(rec *vr.Rec, reps int) {
+	for rep := 0; rep < reps; rep++ {
+		keepAlive := rep%2 == 1
+		nLive := 4 + rep%5
+		nDone := 1 + rep%2
+		period := []time.Duration{10 * time.Second, time.Minute}[rep%2]
+		layer := "registry/inactivity"
+		if keepAlive {
+			layer = "registry/keepalive"
+		}
+		c := kcase{layer, 1, period.String(), fmt.Sprintf("%d silent live connections and %d finished ones in one registry, one tick after the period", nLive, nDone)}
+		reg := connections.New()
+		var byConn sync.Map
+		onInactive := func(cc *udpclient.Conn) {
+			if d, ok := byConn.Load(cc); ok {
+				d.(*udpDriver).inact.Add(1)
+			}
+			_ = cc.Close()
+		}
+		cfg := udpclient.DefaultConfig
+		if keepAlive {
+			options.WithKeepAlive(1, period*2, onInactive).UDPClientApply(&cfg)
+		} else {
+			options.WithInactivityMonitor(period, onInactive).UDPClientApply(&cfg)
+		}
+		var drivers []*udpDriver
+		var hi time.Time
+		for k := 0; k < nLive+nDone; k++ {
+			mon := cfg.CreateInactivityMonitor()
+			d := mkUDPDriver(mon)
+			d.s.Remote = &net.UDPAddr{IP: net.IPv4(10, 0, byte(rep), byte(k+1)), Port: 5683}
+			byConn.Store(d.cc, d)
+			drivers = append(drivers, d)
+			hi = time.Now()
+		}
+		// the finished ones: closed, still registered (spread over the key space)
+		done := map[int]bool{}
+		for k := 0; k < nDone; k++ {
+			idx := (k*3 + rep) % len(drivers)
+			done[idx] = true
+			_ = drivers[idx].cc.Close()
+		}
+		for _, d := range drivers {
+			reg.Store(d.cc)
+		}
+		reg.CheckExpirations(hi.Add(period + period/10))
+		missed := 0
+		for i, d := range drivers {
+			if done[i] {
+				continue
+			}
+			if keepAlive {
+				if d.pings() != 1 {
+					missed++
+				}
+			} else if !d.closed() || d.onInactiveCalls() != 1 {
+				missed++
+			}
+		}
+		rec.Eval(fmt.Sprintf("registry|%v|%d|%d|%d", keepAlive, nLive, nDone, rep))
+		rec.Count("registry_ticks", 1)
+		rec.Count("registry_connections", int64(len(drivers)))
+		if missed > 0 {
+			rec.Violation("C18/"+layer+"/tick-did-not-reach-every-connection", fmt.Sprintf("one housekeeping tick a full period after the last activity: %d of %d live connections were not reached (not closed / no ping sent)", missed, nLive), c)
+		}
+		for _, d := range drivers {
+			d.close()
+		}
+	}
+}
